@@ -386,6 +386,39 @@ type patchGen struct {
 	pTestOK float64 // fraction of tests made to pass
 	maxOps  int
 	kinds   []string
+	orig    []byte   // the document the patch starts from, as spelled
+	parents []string // parents of the locations earlier adds of this patch wrote to
+	pending []string // operations queued to follow the one just generated
+}
+
+// rawAt returns the bytes of the value at ptr in the text doc exactly as spelled there (what a
+// lazily parsed node keeps as its raw message), walking with json.RawMessage
+func rawAt(doc []byte, ptr string) ([]byte, bool) {
+	cur := stdjson.RawMessage(doc)
+	if ptr == "" {
+		return cur, true
+	}
+	for _, tok := range strings.Split(ptr, "/")[1:] {
+		tok = strings.ReplaceAll(strings.ReplaceAll(tok, "~1", "/"), "~0", "~")
+		var m map[string]stdjson.RawMessage
+		var a []stdjson.RawMessage
+		if stdjson.Unmarshal(cur, &m) == nil && m != nil {
+			v, ok := m[tok]
+			if !ok {
+				return nil, false
+			}
+			cur = v
+		} else if stdjson.Unmarshal(cur, &a) == nil && a != nil {
+			i, err := strconv.Atoi(tok)
+			if err != nil || i < 0 || i >= len(a) {
+				return nil, false
+			}
+			cur = a[i]
+		} else {
+			return nil, false
+		}
+	}
+	return cur, true
 }
 
 func jsonStr(s string) string { return quoteGo(s, false) }
@@ -424,6 +457,11 @@ func (pg *patchGen) genOp(cur interface{}) string {
 }
 
 func (pg *patchGen) genOp0(cur interface{}) string {
+	if len(pg.pending) > 0 {
+		op := pg.pending[0]
+		pg.pending = pg.pending[1:]
+		return op
+	}
 	kind := pg.kinds[rng.Intn(len(pg.kinds))]
 	g := pg.g
 	vg := g
@@ -431,6 +469,26 @@ func (pg *patchGen) genOp0(cur interface{}) string {
 	switch kind {
 	case "add", "replace":
 		p := genPointer(cur, kind == "add", pg.odd)
+		if kind == "add" && len(pg.parents) > 0 && chance(0.25) {
+			// below a parent an earlier add of this patch wrote to (which may have been replaced since)
+			p = pg.parents[rng.Intn(len(pg.parents))] + "/" + escTok(keyPool[rng.Intn(len(keyPool))])
+		}
+		if kind == "add" && len(pg.parents) > 0 && chance(0.12) {
+			// overwrite the top-level member (or element) such a parent starts with by a fresh container
+			par := pg.parents[rng.Intn(len(pg.parents))]
+			top := par
+			if i := strings.Index(par[1:], "/"); i >= 0 {
+				top = par[:i+1]
+			}
+			// ... and then add below the same parent again (its containers have to be created again)
+			pg.pending = append(pg.pending, fmt.Sprintf(`{"op":"add","path":%s,"value":%s}`, jsonStr(par+"/"+escTok(keyPool[rng.Intn(len(keyPool))])), genValue(vg, 1)))
+			return fmt.Sprintf(`{"op":"add","path":%s,"value":%s}`, jsonStr(top), pick(`{}`, `{"z":true}`, `[]`, `{"b":{}}`))
+		}
+		if kind == "add" {
+			if i := strings.LastIndex(p, "/"); i > 0 {
+				pg.parents = append(pg.parents, p[:i])
+			}
+		}
 		if p == "" && chance(0.8) {
 			// root replacement: mostly containers
 			return fmt.Sprintf(`{"op":%s,"path":"","value":%s}`, jsonStr(kind), pick(genObject(vg, 2), genArray(vg, 2), genObject(vg, 1)))
@@ -450,6 +508,17 @@ func (pg *patchGen) genOp0(cur interface{}) string {
 		return fmt.Sprintf(`{"op":%s,"from":%s,"path":%s}`, jsonStr(kind), jsonStr(from), jsonStr(to))
 	default: // test
 		p := genPointer(cur, false, pg.odd)
+		if pg.orig != nil && chance(0.12) {
+			// the value a container had in the ORIGINAL document, spelled exactly as it was there: it
+			// must compare unequal if anything below it has changed since
+			if v, ok := lookup(cur, p); ok {
+				if _, isMap := v.(map[string]interface{}); isMap || func() bool { _, a := v.([]interface{}); return a }() {
+					if raw, ok2 := rawAt(pg.orig, p); ok2 {
+						return fmt.Sprintf(`{"op":"test","path":%s,"value":%s}`, jsonStr(p), string(raw))
+					}
+				}
+			}
+		}
 		if v, ok := lookup(cur, p); ok && chance(pg.pTestOK) {
 			return fmt.Sprintf(`{"op":"test","path":%s,"value":%s}`, jsonStr(p), respell(v, g))
 		} else if ok && chance(0.5) {
